@@ -148,6 +148,11 @@ func newOPT(c *Cloner, udpSize uint16, doBit bool) (opt *dns.OPT) {
 		opt = &dns.OPT{}
 	} else {
 		opt = c.opt.rr.Get()
+
+		// Reset the whole header, since the TTL field of a pooled OPT record
+		// still contains the extended RCODE, version, and flags of the message
+		// that it has been disposed from.
+		opt.Hdr = dns.RR_Header{}
 		opt.Option = opt.Option[:0]
 	}
 
